@@ -2,6 +2,11 @@
 from autogen import generator
 from props import info
 
+TRACING_STUBS = ("#[cfg_attr(kani, kani::stub(tracing_core::callsite::DefaultCallsite::interest, crate::stubs::interest_never))]\n"
+                 "#[cfg_attr(kani, kani::stub(tracing::__macro_support::__is_enabled, crate::stubs::is_enabled_false))]\n"
+                 "#[cfg_attr(kani, kani::stub(tracing_core::event::Event::dispatch, crate::stubs::dispatch_nothing))]\n"
+                 "#[cfg_attr(kani, kani::stub(tracing::span::Span::new, crate::stubs::span_none))]\n")
+
 INT_TYPES = ["u8", "i8", "u16", "i16", "u32", "i32", "u64", "i64", "usize", "isize"]
 
 
@@ -174,12 +179,12 @@ info("C05",
 def gen_c06(ctx):
     out = ["// generated: sgr_face against the reference SGR machine by parameter string length", "use crate::c06::*;", ""]
     for n in range(0, 5):
-        tier = "quick" if n <= 2 else "thorough"
+        tier = "thorough"
         out.append("/// @tier %s @timeout %d\n/// @bounds every parameter string of length %d over [0-9:;] whose parameters the "
                    "reference machine defines (no palette selection)\n"
                    "/// @encodes decoder::sgr_face, decoder::sgr_color, decoder::number_decode, decoder::GraphicRenditionMatcher::decode, face::FaceModify::apply\n"
-                   "#[cfg_attr(kani, kani::proof)]\n#[cfg_attr(kani, kani::unwind(12))]\npub fn c06_sgr_face_len%d() {\n"
-                   "    sgr_face_case::<%d>()\n}\n" % (tier, 600 if n <= 2 else 3000, n, n, n))
+                   "#[cfg_attr(kani, kani::proof)]\n#[cfg_attr(kani, kani::unwind(%d))]\npub fn c06_sgr_face_len%d() {\n"
+                   "    sgr_face_case::<%d, %d>()\n}\n" % (tier, 900 if n <= 2 else 3000, n, max(n + 3, 6), n, n, n + 1))
     return {"c06_gen": "\n".join(out)}
 
 
@@ -264,7 +269,11 @@ def gen_c03(ctx):
     CK = {0: "no candidate", 1: "recognised candidate", 2: "raw candidate"}
 
     def step(s, l, b, r, ck, k, tier, timeout=900):
-        out.append("/// @tier %s @timeout %d\n/// @bounds every DFA with %d states over %d symbols (all transitions, all accepting sets); state: "
+        also = ""
+        if (s, l) == (2, 2) and (b, r, ck, k) in ((2, 0, 1, 2), (3, 1, 1, 2)):
+            # totality of the driver (C02) and in-order rescan after a longest match (C04 concatenation)
+            also = "/// @also C02 C04\n"
+        out.append(also + "/// @tier %s @timeout %d\n/// @bounds every DFA with %d states over %d symbols (all transitions, all accepting sets); state: "
                    "any DFA state, buffer of %d bytes, %d rescheduled bytes, %s%s; any next byte\n/// @encodes %s\n"
                    "#[cfg_attr(kani, kani::proof)]\n#[cfg_attr(kani, kani::unwind(10))]\npub fn c03_step_s%dl%d_b%dr%dc%dk%d() {\n"
                    "    step_case::<%d, %d, %d, %d, %d, %d>()\n}\n"
@@ -274,8 +283,8 @@ def gen_c03(ctx):
         out.append("/// @tier %s @timeout %d\n/// @bounds every DFA with %d states over %d symbols; state: buffer %d, rescheduled %d, %s%s; "
                    "one decode call over every %d byte input\n/// @encodes decoder::MatcherDecoder::decode, %s\n"
                    "#[cfg_attr(kani, kani::proof)]\n#[cfg_attr(kani, kani::unwind(10))]\npub fn c03_call_s%dl%d_b%dr%dc%dk%d_n%d() {\n"
-                   "    call_case::<%d, %d, %d, %d, %d, %d, %d>()\n}\n"
-                   % (tier, timeout, s, l, b, r, CK[ck], (" at size %d" % k) if ck else "", n, ENC, s, l, b, r, ck, k, n, s, l, b, r, ck, k, n))
+                   "    call_case::<%d, %d, %d, %d, %d, %d, %d, %d>()\n}\n"
+                   % (tier, timeout, s, l, b, r, CK[ck], (" at size %d" % k) if ck else "", n, ENC, s, l, b, r, ck, k, n, s, l, b, r, ck, k, n, n + 1))
 
     quick_shapes = [(0, 0, 0, 0), (1, 0, 0, 0), (1, 0, 1, 1), (2, 1, 1, 1), (2, 0, 1, 2), (3, 1, 1, 2), (2, 2, 0, 0), (2, 1, 2, 1)]
     for (b, r, ck, k) in quick_shapes:
@@ -293,19 +302,20 @@ def gen_c03(ctx):
         if ck != 2 and r <= 1:
             step(3, 2, b, r, ck, k, "thorough", 1800)
             step(2, 3, b, r, ck, k, "thorough", 1800)
-    for (b, r, ck, k, n) in [(0, 0, 0, 0, 0), (0, 0, 0, 0, 1), (1, 0, 1, 1, 0), (1, 1, 1, 1, 1), (0, 1, 0, 0, 2), (2, 2, 1, 1, 1)]:
-        call(2, 2, b, r, ck, k, n, "quick" if n <= 1 and r <= 1 else "thorough")
+    # one decode call that processes at most one byte (empty read, one input byte, one rescheduled byte)
+    for (b, r, ck, k, n) in [(0, 0, 0, 0, 0), (1, 0, 1, 1, 0), (2, 0, 1, 1, 0), (0, 0, 0, 0, 1), (1, 0, 1, 1, 1), (2, 1, 1, 1, 0), (1, 1, 0, 0, 0)]:
+        call(2, 2, b, r, ck, k, n, "quick")
+    for (b, r, ck, k, n) in [(1, 1, 1, 1, 1), (0, 1, 0, 0, 2), (2, 2, 1, 1, 1)]:
+        call(2, 2, b, r, ck, k, n, "thorough", 3000)
     for (b, r, ck, k, n) in [(1, 0, 1, 1, 2), (2, 1, 1, 2, 2), (0, 2, 0, 0, 3), (3, 2, 1, 2, 2)]:
         call(2, 2, b, r, ck, k, n, "thorough")
-    for (s, l, n, tier) in [(2, 2, 3, "quick"), (3, 2, 4, "thorough"), (2, 2, 5, "thorough"), (3, 3, 4, "thorough")]:
-        out.append("/// @tier %s @timeout 1800\n/// @bounds reference tokenizer only (no crate code): every DFA with %d states over %d symbols, every "
-                   "input of %d symbols, every split into three reads\n/// @encodes (model) c03::Model::step, c03::Model::decode\n"
-                   "#[cfg_attr(kani, kani::proof)]\n#[cfg_attr(kani, kani::unwind(%d))]\npub fn c03_model_chunks_s%dl%d_n%d() {\n"
-                   "    chunk_case::<%d, %d, %d>()\n}\n" % (tier, s, l, n, 2 * n + 4 if 2 * n + 4 > 10 else 10, s, l, n, s, l, n))
-        out.append("/// @tier %s @timeout 1800\n/// @bounds reference tokenizer only (no crate code): every DFA with %d states over %d symbols, every "
-                   "input of %d symbols; items == leftmost-longest tokenisation by definition\n/// @encodes (model) c03::Model::step\n"
+    for (s, l, n, tier) in [(2, 2, 2, "quick"), (2, 2, 3, "thorough"), (3, 2, 3, "thorough"), (2, 2, 4, "thorough"), (3, 3, 4, "thorough")]:
+        t = n * (n + 1) // 2 + n
+        out.append("/// @tier %s @timeout 3000\n/// @bounds reference tokenizer only (no crate code): every DFA with %d states over %d symbols, every "
+                   "input of %d symbols; items == leftmost-longest tokenisation by definition, pending bytes == undecided tail\n"
+                   "/// @encodes (model) c03::Model::step\n"
                    "#[cfg_attr(kani, kani::proof)]\n#[cfg_attr(kani, kani::unwind(%d))]\npub fn c03_model_munch_s%dl%d_n%d() {\n"
-                   "    munch_case::<%d, %d, %d>()\n}\n" % (tier, s, l, n, 2 * n + 4 if 2 * n + 4 > 10 else 10, s, l, n, s, l, n))
+                   "    munch_case::<%d, %d, %d, %d>()\n}\n" % (tier, s, l, n, max(t + 2, 10), s, l, n, s, l, n, t))
     return {"c03_gen": "\n".join(out)}
 
 
@@ -521,9 +531,9 @@ def gen_c02(ctx):
                        "from the real compile()) is in an accepting state whose first tag is matcher %d (%s): the exact condition "
                        "under which decode_byte calls this payload decoder\n"
                        "/// @encodes decoder::<matcher %d %s>::decode, decoder::number_decode, decoder::numbers_decode\n"
-                       "#[cfg_attr(kani, kani::proof)]\n#[cfg_attr(kani, kani::unwind(%d))]\npub fn c02_dec_%s_n%d() {\n"
+                       "#[cfg_attr(kani, kani::proof)]\n#[cfg_attr(kani, kani::unwind(%d))]\n%spub fn c02_dec_%s_n%d() {\n"
                        "    matcher_case::<%d>(%d, &%s)\n}\n"
-                       % (tier, timeout, n, len(ev["infos"]), idx, short, idx, short, n + 3, short, n, n, idx, up))
+                       % (tier, timeout, n, len(ev["infos"]), idx, short, idx, short, n + 3, TRACING_STUBS, short, n, n, idx, up))
     # kernels
     for n in list(range(0, 25)):
         tier = "quick" if n in (0, 1, 2, 5, 19, 20, 21) else "thorough"
@@ -537,7 +547,28 @@ def gen_c02(ctx):
     for n in (1, 2, 3, 4):
         out.append("/// @tier quick @timeout 600\n/// @bounds every %d byte sequence the UTF-8 automata accept (lead byte class + continuation bytes)\n"
                    "/// @encodes decoder::utf8_decode, decoder::UTF8Matcher::decode\n"
-                   "#[cfg_attr(kani, kani::proof)]\n#[cfg_attr(kani, kani::unwind(6))]\npub fn c02_utf8_n%d() {\n    utf8_case::<%d>()\n}\n" % (n, n, n))
+                   "#[cfg_attr(kani, kani::proof)]\n#[cfg_attr(kani, kani::unwind(6))]\n%spub fn c02_utf8_n%d() {\n    utf8_case::<%d>()\n}\n" % (n, TRACING_STUBS, n, n))
+    # Utf8Decoder through the compile()/utf8_nfa stubs and the dumped table
+    u = a["utf8"]
+    out.append("pub const UTF8_START: usize = %d;" % u["start"])
+    out.append("pub const UTF8_LANG: usize = %d;" % u["lang_size"])
+    cells = ", ".join("None" if v < 0 else "Some(verif_dfa_state(%d))" % v for v in u["table"])
+    out.append("use surf_n_term::automata::{DFAState, verif_dfa_state};")
+    out.append("pub static UTF8_TABLE: [Option<DFAState>; %d] = [%s];" % (len(u["table"]), cells))
+    out.append("pub static UTF8_INFO: [(bool, bool); %d] = [%s];\n" % (
+        len(u["accepting"]), ", ".join("(%s, %s)" % (str(x).lower(), str(y).lower()) for x, y in zip(u["accepting"], u["terminal"]))))
+    UTF8_STUBS = ("#[cfg_attr(kani, kani::stub(surf_n_term::automata::NFA::compile, crate::c02::compile_stub))]\n"
+                  "#[cfg_attr(kani, kani::stub(surf_n_term::decoder::utf8_nfa, surf_n_term::decoder::verif_hooks::utf8_nfa_stub))]\n")
+    for (n, k, tier, timeout) in ((1, 0, "quick", 600), (2, 1, "quick", 900), (3, 1, "quick", 1200), (3, 2, "thorough", 1800),
+                                  (4, 1, "thorough", 3000), (4, 2, "thorough", 3000), (4, 3, "thorough", 3000), (3, 0, "thorough", 1800)):
+        out.append("/// @also C09\n/// @tier %s @timeout %d\n/// @bounds every well-formed %d byte UTF-8 sequence (lead byte class + continuation bytes), "
+                   "delivered as two reads cut after %d byte(s)\n/// @encodes decoder::Utf8Decoder::decode, decoder::Utf8Decoder::consume, decoder::utf8_decode, automata::DFA::transition\n"
+                   "#[cfg_attr(kani, kani::proof)]\n#[cfg_attr(kani, kani::unwind(14))]\n%spub fn c02_utf8dec_n%d_cut%d() {\n    utf8dec_split_case::<%d, %d>()\n}\n"
+                   % (tier, timeout, n, k, UTF8_STUBS, n, k, n, k))
+    for (n, tier, timeout) in ((1, "quick", 600), (2, "thorough", 1800), (3, "thorough", 3000)):
+        out.append("/// @tier %s @timeout %d\n/// @bounds every %d byte input\n/// @encodes decoder::Utf8Decoder::decode, decoder::utf8_decode\n"
+                   "#[cfg_attr(kani, kani::proof)]\n#[cfg_attr(kani, kani::unwind(14))]\n%spub fn c02_utf8dec_total_n%d() {\n    utf8dec_total_case::<%d>()\n}\n"
+                   % (tier, timeout, n, UTF8_STUBS, n, n))
     return {"c02_gen": "\n".join(out)}
 
 
@@ -644,8 +675,8 @@ def gen_c13(ctx):
                                      (3, 63, "thorough", 3000), (3, 255, "thorough", 3000), (4, 15, "thorough", 3000)):
         out.append("/// @tier %s @timeout %d\n/// @bounds tree shape %d (%d nodes) with node colours under the k-d invariant and any query colour, "
                    "channels 0..=%d\n/// @encodes image::KDTree::find (find_rec)\n"
-                   "#[cfg_attr(kani, kani::proof)]\n#[cfg_attr(kani, kani::unwind(6))]\npub fn c13_kd_find_shape%d_ch%d() {\n    find_case::<%d, %d>()\n}\n"
-                   % (tier, timeout, shape, shape, ch, shape, ch, shape, ch))
+                   "#[cfg_attr(kani, kani::proof)]\n#[cfg_attr(kani, kani::unwind(%d))]\npub fn c13_kd_find_shape%d_ch%d() {\n    find_case::<%d, %d>()\n}\n"
+                   % (tier, timeout, shape, shape, ch, {1: 3, 2: 4, 3: 4, 4: 5}[shape], shape, ch, shape, ch))
     return {"c13_gen": "\n".join(out)}
 
 
@@ -657,3 +688,108 @@ info("C13",
              "(whole-image float pipeline)",
      assumptions=["find() harness assumes the invariant that the build harness proves: left subtree <= node <= right "
                   "subtree on the node's split dimension"])
+
+
+# ----------------------------------------------------------------------------------------------
+# C04
+# ----------------------------------------------------------------------------------------------
+@generator
+def gen_c04(ctx):
+    out = ["// generated: report printers by digit shape", "use crate::c04::*;", "use crate::autogen::c02_gen::*;", ""]
+
+    def h(name, body, tier, timeout, bounds, enc, unwind):
+        out.append("/// @tier %s @timeout %d\n/// @bounds %s\n/// @encodes %s\n#[cfg_attr(kani, kani::proof)]\n"
+                   "#[cfg_attr(kani, kani::unwind(%d))]\n%spub fn %s() {\n    %s\n}\n" % (tier, timeout, bounds, enc, unwind, TRACING_STUBS, name, body))
+
+    for (dr, dc, tier) in ((1, 1, "quick"), (2, 1, "thorough"), (1, 2, "thorough"), (2, 2, "thorough"), (3, 3, "thorough")):
+        n = 4 + dr + dc
+        h("c04_cursor_r%dc%d" % (dr, dc), "cursor_case::<%d, %d, %d>(&CURSOR)" % (n, dr, dc), tier, 1800,
+          "cursor report with a %d digit row and a %d digit column, every digit value (row, col >= 1)" % (dr, dc),
+          "decoder::CursorPositionMatcher::decode, decoder::numbers_decode, production event automaton (table)", n + 3)
+    for (db, dc, dr, tier) in ((1, 1, 1, "quick"), (2, 1, 1, "thorough"), (1, 2, 2, "thorough"), (2, 2, 2, "thorough")):
+        n = 6 + db + dc + dr
+        h("c04_mouse_b%dc%dr%d" % (db, dc, dr), "mouse_case::<%d, %d, %d, %d>(&MOUSE)" % (n, db, dc, dr), tier, 3000,
+          "SGR mouse report with a %d digit button code, %d digit column, %d digit row, press and release" % (db, dc, dr),
+          "decoder::MouseEventMatcher::decode, decoder::numbers_decode, production event automaton (table)", n + 3)
+    for m in range(9):
+        number = [25, 7, 80, 1000, 1003, 1006, 1049, 2026, 2004][m]
+        nd = len(str(number))
+        n = 7 + nd
+        h("c04_decmode_%d" % number, "decmode_case::<%d, %d>(&DECMODE)" % (n, m), "quick" if m in (0, 6, 8) else "thorough", 1800,
+          "DECRPM report of mode %d with every status 0..=4" % number,
+          "decoder::DecModeMatcher::decode, terminal::DecMode::from_usize, terminal::DecModeStatus::from_usize", n + 3)
+    for d in (1, 2):
+        n = 4 + d
+        h("c04_kbdlevel_d%d" % d, "kbdlevel_case::<%d, %d>(&KITTYKBD)" % (n, d), "quick" if d == 1 else "thorough", 1800,
+          "kitty keyboard level report with a %d digit level" % d,
+          "decoder::KittyKeyboardMatcher::decode, decoder::number_decode", n + 3)
+    return {"c04_gen": "\n".join(out)}
+
+
+info("C04",
+     technique="Kani/CBMC bounded model checking: harness-side protocol printers render symbolic parameters at concrete "
+               "digit positions; the production automaton (table dumped from the real compile()) must accept them with the "
+               "family's matcher and the real payload decoder must return exactly the transmitted values",
+     outside="coordinates with more digits than the listed shapes (5 digit coordinates are beyond reach); DA1, OSC colour, "
+             "termcap, DECRPSS, kitty image, paste and size reports; the static key table (finite data, no solver question); "
+             "concatenation of sequences (argued from C03 + self-delimitation of the families)",
+     assumptions=["xterm ctlseqs semantics of the SGR mouse button code (4 shift, 8 meta, 16 control, 64 wheel)",
+                  "button naming follows the library's fixed table"])
+
+
+# ----------------------------------------------------------------------------------------------
+# SMT over the production tables: every character is accepted (C06 command decoder, C04 event decoder)
+# ----------------------------------------------------------------------------------------------
+def utf8_table_record(gen_info_ctx, which, matcher, domain, pid):
+    import json
+    import os
+    import subprocess
+    import smtcheck
+    import props
+    a = production_automata(gen_info_ctx)
+    sub = matcher_subtable(a[which], matcher)
+    rec = {"instance": "%s_utf8_acceptance_%s" % (pid.lower(), which), "engine": "z3 over the %s automaton dumped from the real compile()" % which,
+           "bounds": "every Unicode scalar value (%s): its UTF-8 encoding (1..4 bytes) drives the production %s automaton "
+                     "(sub-table of %d states) into an accepting state whose first tag is the UTF-8 matcher" % (
+                         "except ESC" if domain == "not_escape" else "one byte characters restricted to ' '..='~'", which, sub["nstates"] if sub else 0),
+           "queries": 1, "encodes": ["decoder::utf8_nfa", "automata::NFA::compile (table)", "decoder::MatcherAutomata::new"]}
+    if sub is None:
+        rec.update(verdict="violated", reason="no accepting state tagged with the UTF-8 matcher", replay_path="")
+        return rec
+    status, model, dt = smtcheck.utf8_acceptance(sub, domain)
+    rec["solver_s"] = round(dt, 3)
+    if status == "unsat":
+        rec["verdict"] = "held"
+    elif status == "sat" and model is not None:
+        # replay through the real public decoder
+        ch = chr(model)
+        data = list(ch.encode("utf-8"))
+        p = subprocess.run([smtcheck.TABLEGEN, "decode"], input=json.dumps({"kind": which, "bytes": data}) + "\n",
+                           capture_output=True, text=True, timeout=60)
+        items = json.loads(p.stdout.strip().splitlines()[-1])["items"] if p.returncode == 0 and p.stdout.strip() else ["<decoder crashed>"]
+        want = ("Char(%r)" % ch) if which == "command" else None
+        good = len(items) == 1 and ("Char(%s)" % repr(ch).replace('"', "'") in items[0] or ("Char('%s')" % ch) in items[0])
+        if good:
+            rec.update(verdict="inconclusive", reason="solver model U+%04X does not replay: real decoder returned %s" % (model, items))
+        else:
+            os.makedirs(props.VIOL_DIR, exist_ok=True)
+            path = os.path.join(props.VIOL_DIR, "%s_utf8_%s.json" % (pid, which))
+            json.dump({"engine": "smt-table", "property": pid, "scalar": model, "bytes": data, "decoder": which, "decoded": items},
+                      open(path, "w"), indent=1)
+            print("  %s: U+%04X (bytes %s) is not decoded as a character by the %s decoder: %s" % (pid, model, data, which, items))
+            rec.update(verdict="violated", reason="U+%04X not accepted as a character: decoded %s" % (model, items), replay_path=path)
+    else:
+        rec.update(verdict="inconclusive", reason="solver: %s" % model)
+    return rec
+
+
+def extra_c06(tier, seed, gen_info):
+    return [utf8_table_record({"info": gen_info}, "command", 1, "not_escape", "C06")]
+
+
+def extra_c04(tier, seed, gen_info):
+    return [utf8_table_record({"info": gen_info}, "event", 12, "printable", "C04")]
+
+
+EXTRA["C06"] = extra_c06
+EXTRA["C04"] = extra_c04
